@@ -50,7 +50,10 @@ def ordered(v):
 
 def gen_ext(r, tier):
     case = SM.gen_subset_case(r, tier)
-    ext = SM.build_parent(case)
+    # an affine whose entries binary32 (what a NIfTI header stores) cannot represent: the extension keeps its own, in binary64
+    aff = np.array([[2.2, 0.0, 0.1, -93.7], [0.0, -1.1, 0.3, 40.1], [0.05, 0.0, 3.3, -12.7], [0.0, 0.0, 0.0, 1.0]]) \
+        if r.random() < 0.6 else None
+    ext = SM.build_parent(case, affine=aff)
     # replace values by rich ones, keeping counts; shuffle key names to non-sorted, unicode keys
     names = ['zeta', 'Alpha', 'kü', 'b b', 'k"q', '\U0001F600', 'Mid', 'a.b.c', '0num', 'NaN voxel count', 'null', 'Infinity', 'true', 'in    dent']
     r.shuffle(names)
@@ -124,7 +127,7 @@ def main(pid, tier):
                 rep.count('json/file')
                 try:
                     shape = tuple(ext.shape)
-                    img = nb.Nifti1Image(np.zeros(shape, dtype=np.int16), np.eye(4))
+                    img = nb.Nifti1Image(np.zeros(shape, dtype=np.int16), np.array(ext.affine))   # the image sits where the extension says
                     img.header.set_dim_info(slice=ext.slice_dim)
                     img.header.extensions.append(ext)
                     w = NiftiWrapper(img)
